@@ -271,7 +271,15 @@ def evaluate(case, out):
             out.lib_exception("alpha-form", e)
             return
         first_boundary = next((j for j, (_w, tag) in enumerate(ref) if tag == "mu-at-boundary"), None)
+        mus = mu_seq(N, t, x)
         for j, (want, tag) in enumerate(ref):
+            # the ALPHA form computes a factor 1 + lam (x - mu) as a difference of numbers of size u: when the factor itself is
+            # tiny (a bet at the very cap against a draw of 0) its relative rounding error is eps/factor, and it stays in
+            # the product for good. The identity is exact arithmetic; the two forms are compared while every factor so far
+            # is at least 1e-4 (relative error 1e-12 per factor, tolerance 1e-9)
+            if mus[j] <= u and abs(1 + seq[j] * (x[j] - mus[j])) < 1e-4:
+                out.cls("alpha-vs-betting:stopped-at-an-ill-conditioned-factor")
+                break
             if j == first_boundary and not (math.isnan(hist[j]) and math.isnan(h2[j])):
                 # the draw at which the null mean reaches 0 or u: the two forms still report the same value there
                 # (what either reports afterwards is not defined by the products and is not compared)
